@@ -87,6 +87,10 @@ def build_facts(config="default", repo=REPO, quiet=False):
     fcntl.flock(lockf, fcntl.LOCK_EX)
     try:
         if os.path.exists(os.path.join(d, "OK")):
+            try:
+                os.utime(d)
+            except OSError:
+                pass
             return d, hsh, nfiles
         # drop stale fact dirs of this config (keep disk small)
         olds = sorted(glob.glob(os.path.join(CACHE, "facts-*-%s" % config)), key=os.path.getmtime)
